@@ -6,11 +6,16 @@ matches).  Oracle: documented bounds per form, every documented form accepted fo
 
 Every specification is deep-copied before the call and judged against the pristine copy (an implementation that
 sorts / rewrites the caller's list or mapping in place cannot make the oracle agree with its own output); a share
-of the cases hands the *same* specification object to `get_attr` a second time and judges that call as well."""
-import math, importlib, copy
+of the cases hands the *same* specification object to `get_attr` a second time and judges that call as well.
+
+The property is observed at the attribute columns of the returned table: `run_tables` places the same forms in release groups
+of every location kind (GeoJSON feature properties may be named like configured attributes) and judges the columns that
+`make_single_release` / `make_release` return with the same oracles (implementation side only: the driver has no table
+operation for attribute columns)."""
+import math, importlib, copy, json
 import numpy as np
 from .common import Driver, F, I, L, OPT, unF, RngRecorder, close
-from . import ibmrun
+from . import ibmrun, geom
 
 RULE = ("every attribute form (scalar incl. numpy scalars; list of length num with integral, fractional (uniform(-50,50), 0.5, -0.0, "
         "1e-12, 1e9+0.5) or int elements; [low, high] with integral, fractional or int ends; gaussian with/without min/max; "
@@ -22,7 +27,22 @@ RULE = ("every attribute form (scalar incl. numpy scalars; list of length num wi
         "containers (list / tuple / ndarray for lists and ranges); draws recorded with +-8 sigma normals, exponentials of 40x the "
         "mean, u=0 and u=1-2^-53 injected (also when the code asks numpy's random_sample / random / standard_normal / "
         "standard_exponential); 30% of the cases call get_attr twice with the same specification object; piecewise knots probed "
-        "with a constant u = cdf_k (num 3) and with a different cdf_k per particle (num in {1,2,3,5,17}). Non-trivial: every case.")
+        "with a constant u = cdf_k (num 3) and with a different cdf_k per particle (num in {1,2,3,5,17}). Whole tables (the attribute "
+        "columns of the returned table, judged by the same oracles): 1..3 release groups x num in {1,2,3,5,17} per group x 1..4 "
+        "attributes per group of any of the forms above, named depth / stage / batch / speed / w / region / farmid / age / name, "
+        "each an implicit attribute or an entry of the `attrs` block x location kind (point, polygon, several polygons, metric "
+        "offset, GeoJSON as stream or as file name with Polygon / MultiPolygon features) x GeoJSON feature properties (none, "
+        "not colliding, or named like configured attributes incl. depth; float / int / text values; missing in some features; "
+        "a `depth` property with no depth configured is exercised but not judged) x entry point (make_single_release; make_release "
+        "with a flat mapping, a `groups` mapping, a list of groups, a YAML stream of either; seed and `columns` optional) x single "
+        "date or date range per group (groups on distinct days, so that their rows are contiguous); same tail injection; 20% "
+        "second call with the same configuration object; a single piecewise attribute of a table probed with constant u = cdf_k. "
+        "Piecewise with a history: families of 2..3 piecewise specifications with the same knots and different cdf (or the same cdf "
+        "and different knots; knots as list / tuple / ndarray; optionally the first once more at the end) sampled in succession "
+        "in one process -- successive get_attr calls (per-particle u = own cdf_k, a cdf value of another member, or any u), several "
+        "attributes of one group, the same or different attributes of several groups, successive make_release calls (constant "
+        "u) -- each judged against its own cdf. "
+        "Non-trivial: every case.")
 ASSUMPTIONS = ["scipy InterpolatedUnivariateSpline(k=1) is modelled as linear interpolation (checked to 1e-12 on every run)",
                "the optional piecewise key `degree` (documented in release.yaml) is not read by the code (k=1 is hard-coded); the model "
                "is linear interpolation for every degree, and the bounds / cumulative-probability oracles are applied unchanged",
@@ -232,9 +252,10 @@ def expected_schedule(kind, num):
     return [(STOCHASTIC.get(kind, "normal" if kind.startswith("gauss") else "exponential"), (num,))]
 
 
-def judge(ctx, kind, v, num, out, draws, cs, probe_calls=None):
-    """the oracles of the property on one call.  `v` is the pristine copy of the specification (taken before the call)."""
-    site = SITE
+def judge(ctx, kind, v, num, out, draws, cs, probe_calls=None, site=SITE):
+    """the oracles of the property on one call.  `v` is the pristine copy of the specification (taken before the call).
+    `site` is where a failure is attributed (the table cases pass the table assembly); a below-`min` value that the known
+    clip-order finding explains exactly stays attributed to get_distribution."""
     is_range = kind == "range" and num != 2
     if kind in ("const",):
         ctx.oracle(out == [float(v)] * num, "C04.const.repeated", site, "got %r" % out, cs)
@@ -250,7 +271,7 @@ def judge(ctx, kind, v, num, out, draws, cs, probe_calls=None):
             # value below `min` only when that value is exactly min(draw, max); anything else is another defect
             raw = [v["mean"] + v["std"] * z for z in draws]
             expl = len(raw) == len(out) and all(x == min(r_, v.get("max", float("inf"))) for x, r_ in zip(out, raw))
-            ctx.oracle(all(x >= v["min"] for x in out), "C04.gaussian.lower_bound" if expl else "C04.gaussian.lower_bound.other", site,
+            ctx.oracle(all(x >= v["min"] for x in out), "C04.gaussian.lower_bound" if expl else "C04.gaussian.lower_bound.other", SITE if expl else site,
                        "min=%r but values %r (normal draws %r)" % (v["min"], [x for x in out if x < v["min"]][:3], draws[:3]), cs)
         if "max" in v:
             ctx.oracle(all(x <= v["max"] for x in out), "C04.gaussian.upper_bound", site, "max=%r values %r" % (v["max"], out), cs)
@@ -277,6 +298,376 @@ def judge(ctx, kind, v, num, out, draws, cs, probe_calls=None):
                 and isinstance(probe_calls[0][0][0], (int, np.integer)) and not isinstance(probe_calls[0][0][0], bool) \
                 and probe_calls[0][0][0] == num
             ctx.oracle(ok, "C04.callable.argument", SITE_ATTR, "function called as %r, particle count %d" % (probe_calls, num), cs)
+
+
+# ----------------------------------------------------------------------------- whole tables (make_single_release / make_release)
+SITE_TABLE = "ladim_plugins/release/makrel.py::make_single_release"
+TABLE_NAMES = ["depth", "depth", "stage", "batch", "speed", "w", "region", "farmid", "age", "name"]
+
+
+def _native(v):
+    """the specification as a YAML file gives it: Python scalars and lists only"""
+    if isinstance(v, np.generic):
+        return v.item()
+    if isinstance(v, np.ndarray):
+        return [_native(x) for x in v.tolist()]
+    if isinstance(v, (list, tuple)):
+        return [_native(x) for x in v]
+    if isinstance(v, dict):
+        return {k: _native(x) for k, x in v.items()}
+    return v
+
+
+def _spec_text(kind, v0):
+    return v0 if not callable(v0) else CALLABLE_TEXT[kind]
+
+
+def _ring(p):
+    return [[x, y] for x, y in p] + [[p[0][0], p[0][1]]]
+
+
+def gen_table_location(rng, g, cfg_names, yamlable, tags):
+    """every location form of release.yaml.  A GeoJSON location carries feature properties; most of the time some of them are
+    named like attributes configured for the group (`cfg_names`), with values no configured specification can produce."""
+    form = rng.choice(["point", "poly", "multi", "offset", "geojson", "geojson", "geojson"])
+    cx = 4.0 + 9 * g
+    if form == "point":
+        loc = [5, 60] if rng.random() < 0.3 else [round(rng.uniform(-20, 30), 4), round(rng.uniform(50, 75), 4)]
+        if not yamlable and rng.random() < 0.3: loc = tuple(loc)
+        return form, loc, None
+    if form == "poly":
+        p = geom.random_polygon(rng, cx, 60.0, 0.5)
+        return form, [[x for x, y in p], [y for x, y in p]], None
+    if form == "multi":
+        ps = [geom.random_polygon(rng, cx + 2 * i, 60.0, 0.5) for i in range(rng.randrange(2, 4))]
+        return form, [[[x for x, y in p] for p in ps], [[y for x, y in p] for p in ps]], None
+    if form == "offset":
+        p = geom.random_polygon(rng, 0.0, 0.0, 100.0)
+        return form, dict(center=rng.choice([[5, 60], [5.0, 60.0]]), offset=[[x for x, y in p], [y for x, y in p]]), None
+    # GeoJSON
+    nf = rng.randrange(1, 4)
+    uniq = sorted(set(cfg_names))
+    collide = [nm for nm in uniq if rng.random() < 0.6] if rng.random() < 0.8 else []
+    other = [nm for nm in ("farm_id", "label", "depth") if nm not in uniq and rng.random() < 0.35]
+    vtype = {nm: rng.choice(["float", "float", "int", "text"]) for nm in collide + other}
+    feats = []
+    k = 0
+    for f in range(nf):
+        props = {}
+        for nm in collide + other:
+            if nf > 1 and f > 0 and rng.random() < 0.15:
+                tags.append("table.geojson.property_missing_in_a_feature"); continue
+            # far below everything a configured specification of gen() can yield (constants >= -3, list elements >= -50, ranges
+            # >= -5, knots >= -100, exponentials >= 0, bounded gaussians >= mean - 3 std >= -3012.5; unbounded gaussians are
+            # compared exactly with mean + std * draw)
+            props[nm] = {"float": -9000.5 - f, "int": -9000 - f, "text": "farm %d" % f}[vtype[nm]]
+        if rng.random() < 0.4:
+            geometry = dict(type=rng.choice(["Polygon", "polygon"]), coordinates=[_ring(geom.random_polygon(rng, cx + 2 * k, 60.0, 0.5))]); k += 1
+        else:
+            ps = []
+            for q in range(rng.randrange(1, 3)):
+                ps.append(geom.random_polygon(rng, cx + 2 * k, 60.0, 0.5)); k += 1
+            geometry = dict(type="MultiPolygon", coordinates=[[_ring(p)] for p in ps])
+        feat = dict(type="Feature", properties=props, geometry=geometry)
+        if not props and rng.random() < 0.5:
+            del feat["properties"]
+        feats.append(feat)
+    info = dict(collide=collide, other=other, via="file" if (yamlable or rng.random() < 0.4) else "stream")
+    return "geojson", json.dumps(dict(type="FeatureCollection", features=feats)), info
+
+
+def gen_table_group(rng, g, day, num, yamlable, state, tags):
+    """one release group: 1..4 attributes of any documented form (gen()), each either an implicit attribute of the group or an
+    entry of its `attrs` block (never both); `depth` is an attribute like the others"""
+    names = []
+    for nm in rng.sample(TABLE_NAMES, rng.randrange(1, 5)):
+        if nm not in names: names.append(nm)
+    d0 = "2000-01-%02d" % day
+    conf = dict(num=num, date=(d0 + " 00:00:00") if rng.random() < 0.5 else [d0 + " 00:00:00", d0 + " 12:00:00"])
+    specs = []
+    for nm in names:
+        while True:
+            t = []
+            kind, v, _ = gen(rng, num, t)
+            if yamlable and kind.startswith("callable"): continue
+            if kind == "dotted_deep":
+                if state["dotted_deep"]: continue
+                state["dotted_deep"] = True
+            break
+        if yamlable: v = _native(v)
+        where = "attrs" if rng.random() < 0.35 else "implicit"
+        (conf.setdefault("attrs", {}) if where == "attrs" else conf)[nm] = v
+        specs.append(dict(name=nm, kind=kind, v=v, v0=copy.deepcopy(v), where=where, tags=t))
+    form, loc, gj = gen_table_location(rng, g, names, yamlable, tags)
+    conf["location"] = loc
+    return conf, specs, form, gj
+
+
+def table_column(col):
+    """the values of a table column as floats; anything that is not a number (a text, None) becomes NaN, which fails every oracle"""
+    out = []
+    for x in col:
+        try:
+            out.append(float(x))
+        except (TypeError, ValueError):
+            out.append(float("nan"))
+    return out
+
+
+def table_draws(kind, v0, num, out, log):
+    """the recorded draw vector that belongs to an attribute column of a table.  The table is built from several draws (positions,
+    other attributes) in an order the property does not fix, so the vector is identified by what was asked of numpy, not by its
+    position: a `normal(mean, std, num)` request for a gaussian, a `rand(num)` request for a piecewise attribute; among several
+    candidates the one that explains the column is taken (a column no candidate explains is judged against the first)."""
+    if kind.startswith("gauss"):
+        cands = [e[3].tolist() for e in log if e[0] == "normal" and tuple(e[1]) == (v0["mean"], v0["std"]) and tuple(e[2]) == (num,)]
+        if not cands: return None
+        vals = lambda zi: (v0["mean"] + v0["std"] * zi, v0.get("min"), v0.get("max"))
+        return max(cands, key=lambda z: sum(1 for x, zi in zip(out, z) if x in vals(zi)))
+    if kind == "piece":
+        cands = [e[3].tolist() for e in log if e[0] == "rand" and tuple(e[2]) == (num,)]
+        if not cands: return None
+        if len(out) != num: return cands[0]
+        mono = lambda z: bool(np.all(np.diff(np.array(out)[np.argsort(z, kind="stable")]) >= -1e-9))
+        return next((z for z in cands if mono(z)), cands[0])
+    return []
+
+
+def run_tables(ctx, mk):
+    """The attribute columns *of the returned table* (the property's observation point): every documented form, placed in a release
+    group of every location kind, through make_single_release and through make_release in each of its configuration formats."""
+    import io, os, shutil, tempfile, traceback, yaml
+    tmp = tempfile.mkdtemp(prefix="verif_c04_")
+    try:
+        for c in range(ctx.n(500, 5000)):
+            entry = ctx.rng.choice(["single", "flat", "groups", "groups", "list", "yaml"])
+            yamlable = entry == "yaml"
+            ng = 1 if entry in ("single", "flat") else ctx.rng.choice([1, 2, 3])
+            tags = []
+            state = dict(dotted_deep=False)
+            days = ctx.rng.sample(range(1, 28), ng)      # distinct days: the rows of a group are contiguous in the date-sorted table
+            groups = []
+            for g in range(ng):
+                num = ctx.rng.choice([1, 2, 3, 5, 17])
+                conf, specs, form, gj = gen_table_group(ctx.rng, g, days[g], num, yamlable, state, tags)
+                groups.append(dict(conf=conf, specs=specs, form=form, gj=gj, num=num, day=days[g]))
+            glob = {}
+            if entry != "single" and entry != "list":
+                if ctx.rng.random() < 0.6: glob["seed"] = ctx.rng.randrange(0, 1000)
+                if ctx.rng.random() < 0.2:
+                    cfg = sorted({s["name"] for G in groups for s in G["specs"]} - {"depth"})
+                    glob["columns"] = ["date", "longitude", "latitude", "depth"] + ctx.rng.sample(cfg, ctx.rng.randrange(0, len(cfg) + 1))
+                    tags.append("table.columns_option")
+            # GeoJSON files
+            for g, G in enumerate(groups):
+                if G["gj"] is not None and G["gj"]["via"] == "file":
+                    G["path"] = os.path.join(tmp, "area_%d_%d.geojson" % (c, g))
+                    with open(G["path"], "w", encoding="utf-8") as fh:
+                        fh.write(G["conf"]["location"])
+            # knots of a piecewise attribute through the table: every rand() draw of the call is the constant u = cdf_k
+            pieces = [(G, s) for G in groups for s in G["specs"] if s["kind"] == "piece"]
+            knot = None
+            if len(pieces) == 1 and ctx.rng.random() < 0.5:
+                kk = ctx.rng.randrange(len(pieces[0][1]["v0"]["cdf"]) - 1)
+                knot = (pieces[0][1], pieces[0][1]["v0"]["cdf"][kk], pieces[0][1]["v0"]["knots"][kk])
+                tags.append("table.piecewise.knot")
+
+            yaml_flat = entry == "yaml" and ng == 1 and ctx.rng.random() < 0.5
+
+            def build():
+                """the configuration handed to the implementation (a stream can be read once: a fresh one per call)"""
+                gs = []
+                for G in groups:
+                    cf = G["conf"]
+                    if G["gj"] is not None:
+                        cf = dict(G["conf"])
+                        cf["location"] = G["path"] if G["gj"]["via"] == "file" else io.StringIO(G["conf"]["location"])
+                    gs.append(cf)
+                if entry == "single": return gs[0]
+                if entry == "flat": return dict(gs[0], **glob)
+                if entry == "list": return gs
+                full = dict(glob, groups=gs)
+                if entry == "yaml":
+                    return io.StringIO(yaml.safe_dump(dict(gs[0], **glob) if yaml_flat else full))
+                return full
+
+            desc = dict(entry=entry, **glob)
+            desc["groups"] = [dict(num=G["num"], date=G["conf"]["date"], location_form=G["form"], location=G["conf"]["location"],
+                                   geojson=G["gj"], attributes={s["name"]: dict(where=s["where"], kind=s["kind"], spec=_spec_text(s["kind"], s["v0"]))
+                                                                for s in G["specs"]}) for G in groups]
+            ctx.case(key=("table", repr(desc)), nontrivial=True, sample=desc if c < 1 else None)
+            ctx.branch("table"); ctx.branch("table.entry=%s" % entry); ctx.branch("table.groups=%d" % ng)
+            for t in tags: ctx.branch(t)
+            for G in groups:
+                ctx.branch("table.location=%s" % G["form"]); ctx.branch("table.num=%d" % G["num"])
+                if G["gj"] is not None:
+                    ctx.branch("table.geojson.via=%s" % G["gj"]["via"])
+                    ctx.branch("table.geojson.collision" if G["gj"]["collide"] else "table.geojson.no_collision")
+                    if "depth" in G["gj"]["other"]: ctx.branch("table.geojson.depth_property_and_no_depth_configured")
+                for s in G["specs"]:
+                    ctx.branch("table.attr.%s.%s" % (s["where"], s["kind"]))
+                    if s["name"] == "depth": ctx.branch("table.attr.depth.%s" % s["kind"])
+                    if G["gj"] is not None and s["name"] in G["gj"]["collide"]:
+                        ctx.branch("table.collision.%s.%s" % ("depth" if s["name"] == "depth" else s["where"], s["kind"]))
+
+            no_stream = all(G["gj"] is None or G["gj"]["via"] == "file" for G in groups)
+            calls = 2 if (no_stream and entry != "yaml" and ctx.rng.random() < 0.2) else 1
+            config = None
+            for call in range(calls):
+                if call == 1:
+                    ctx.case(key=("table", repr(desc), "second"), nontrivial=True); ctx.branch("table.second_call_same_object")
+                if config is None:
+                    config = build()
+                cs = dict(desc)
+                if call == 1: cs["second_call_with_same_object"] = True
+                tail = ibmrun.tail_injector(ctx.rng, 0.25)
+                inj = tail if knot is None else (lambda kind, p, arr, _u=knot[1], _t=tail: np.full(arr.shape, _u) if kind == "rand" else _t(kind, p, arr))
+                del PROBE_CALLS[:]
+                for G in groups:
+                    for s in G["specs"]:
+                        if isinstance(s["v"], CountProbe): del s["v"].calls[:]
+                try:
+                    with Recorder(ctx.sub_seed(), inj) as rec:
+                        table = mk.make_single_release(config) if entry == "single" else mk.make_release(config)
+                except Exception as e:
+                    tb = traceback.extract_tb(e.__traceback__)
+                    if not any("/ladim_plugins/" in f.filename and "/verif/" not in f.filename for f in tb):
+                        raise                                   # a harness mistake, not the implementation
+                    ctx.oracle(False, "C04.table.rejected", SITE_TABLE, "a configuration of documented forms raised %r%s" % (e, " (second call with the same configuration object)" if call else ""),
+                               dict(cs, traceback=traceback.format_exc()[-1500:]))
+                    break
+                # rows of each group: groups appear in the order of their (distinct) days, particles in order
+                off = 0
+                for G in sorted(groups, key=lambda G: G["day"]):
+                    lo, hi = off, off + G["num"]; off = hi
+                    for s in G["specs"]:
+                        if s["name"] not in table:
+                            # only a `columns` selection may leave a configured attribute out
+                            ctx.oracle("columns" in glob and s["name"] not in glob["columns"], "C04.table.attribute_column_missing", SITE_TABLE,
+                                       "configured attribute %r has no column (columns %r)" % (s["name"], list(table)), cs)
+                            continue
+                        col = list(table[s["name"]])
+                        total = sum(G2["num"] for G2 in groups)
+                        if not ctx.oracle(len(col) == total, "C04.table.column_length", SITE_TABLE, "column %r has %d rows, %d particles" % (s["name"], len(col), total), cs):
+                            continue
+                        out = table_column(col[lo:hi])
+                        draws = table_draws(s["kind"], s["v0"], G["num"], out, rec.log)
+                        if draws is None:
+                            ctx.disagreement("table.draws_unobserved", "no recorded numpy request matches attribute %r (%s)" % (s["name"], s["kind"]), cs)
+                            draws = []
+                        acs = dict(cs, attribute=s["name"], kind=s["kind"], spec=_spec_text(s["kind"], s["v0"]), num=G["num"], where=s["where"],
+                                   column=[x if isinstance(x, (int, float, str)) or x is None else repr(x) for x in col[lo:hi]], draws=draws)
+                        probe_calls = list(PROBE_CALLS) if s["kind"] == "dotted_deep" else (list(s["v"].calls) if s["kind"] == "callable_obj" else None)
+                        judge(ctx, s["kind"], s["v0"], G["num"], out, draws, acs, probe_calls, site=SITE_TABLE)
+                        if knot is not None and s is knot[0]:
+                            # cumulative probabilities, as in the get_attr cases above (same tolerance: the spline is not exact at the knots)
+                            ctx.oracle(len(out) == G["num"] and all(close(x, knot[2], 1e-9, 1e-9) for x in out), "C04.piecewise.cdf_knots", SITE_TABLE,
+                                       "every u = cdf = %r should give knot %r, got %r" % (knot[1], knot[2], out), acs)
+    finally:
+        shutil.rmtree(tmp, ignore_errors=True)
+
+
+# ----------------------------------------------------------------------------- piecewise specifications with a history
+def gen_piece_family(rng, tags):
+    """2..3 piecewise specifications that share their knots but not their cumulative probabilities (or the other way round): each
+    one is a documented specification on its own; what is varied is which other specifications the process has seen before"""
+    while True:
+        v, _ = gen_piece(rng, [])
+        if len(v["cdf"]) >= 3: break
+    n = len(v["cdf"])
+    share = rng.choice(["knots", "knots", "knots", "cdf"])
+    tags.append("piecewise.history.shared_%s" % share)
+    fam = [v]
+    for _ in range(rng.randrange(1, 3)):
+        w = copy.deepcopy(v)
+        if share == "knots":
+            while True:
+                cdf = sorted(set([0.0, 1.0] + [round(rng.random(), 3) for _ in range(n - 2)]))
+                if len(cdf) == n and all(cdf != f["cdf"] for f in fam): break
+            w["cdf"] = cdf
+        else:
+            while True:
+                knots = sorted(rng.uniform(-100, 100) for _ in range(n))
+                if all(knots != list(f["knots"]) for f in fam): break
+            w["knots"] = knots
+        if "degree" in w and rng.random() < 0.5: del w["degree"]
+        c = rng.choice(["list", "list", "tuple", "ndarray"])
+        if c != "list":
+            w["knots"] = tuple(w["knots"]) if c == "tuple" else np.array(w["knots"]); tags.append("piecewise.history.knots_container=%s" % c)
+        fam.append(w)
+    return fam
+
+
+def piece_bracket_ok(v0, u, x):
+    """P(value <= knot_j) = cdf_j for every j: a draw u with cdf_j <= u <= cdf_j+1 gives a value between knot_j and knot_j+1
+    (1e-9: the spline evaluation is not exact, as for the knot oracle)"""
+    cdf, kn = list(v0["cdf"]), list(v0["knots"])
+    return any(cdf[j] <= u <= cdf[j + 1] and kn[j] - 1e-9 <= x <= kn[j + 1] + 1e-9 for j in range(len(cdf) - 1))
+
+
+def run_piece_history(ctx, mk):
+    """the cumulative probabilities of *this* specification are followed whatever was sampled before in the same process: get_attr
+    calls in succession, several piecewise attributes of one group, several groups of one release, successive make_release calls"""
+    def judge_piece(v0, us, out, num, site, cs):
+        out = table_column(out)
+        cs = dict(cs, spec=v0, num=num, draws=list(us), out=out)
+        ok = len(out) == num
+        ctx.oracle(ok and all(close(x, list(v0["knots"])[list(v0["cdf"]).index(u)], 1e-9, 1e-9) for x, u in zip(out, us) if u in list(v0["cdf"])),
+                   "C04.piecewise.cdf_knots", site, "a draw u = cdf_k should give knot_k: draws %r, values %r" % (list(us), out), cs)
+        ctx.oracle(ok and all(piece_bracket_ok(v0, u, x) for x, u in zip(out, us)), "C04.piecewise.cdf_bracket", site,
+                   "a draw between cdf_j and cdf_j+1 should give a value between knot_j and knot_j+1: draws %r, values %r" % (list(us), out), cs)
+
+    for c in range(ctx.n(150, 1500)):
+        tags = []
+        fam = gen_piece_family(ctx.rng, tags)
+        fam0 = copy.deepcopy(fam)
+        if ctx.rng.random() < 0.5:
+            fam.append(fam[0]); fam0.append(fam0[0])          # ... and the first one again
+        mode = ctx.rng.choice(["get_attr", "get_attr", "group_attrs", "groups", "releases"])
+        ctx.branch("piecewise.history"); ctx.branch("piecewise.history.%s" % mode)
+        for t in tags: ctx.branch(t)
+        base = dict(mode=mode, family=fam0)
+        if mode == "get_attr":
+            for i, (v, v0) in enumerate(zip(fam, fam0)):
+                num = ctx.rng.choice([1, 2, 3, 5, 17])
+                cdf = list(v0["cdf"])
+                # per particle: u = cdf_k of this specification, a cdf value of another member, or any u in [0, 1)
+                pool = sorted({u for f in fam0 for u in list(f["cdf"])[:-1]})
+                us = [cdf[ctx.rng.randrange(len(cdf) - 1)] if ctx.rng.random() < 0.6 else (ctx.rng.choice(pool) if ctx.rng.random() < 0.5 else ctx.rng.random())
+                      for _ in range(num)]
+                ua = np.array(us, dtype=float)
+                ctx.case(key=("piece_history", repr(fam0), i, tuple(us)), nontrivial=True)
+                with Recorder(0, lambda kind, p, arr, _u=ua: (_u.reshape(arr.shape) if arr.size == _u.size else np.full(arr.shape, _u[0]))):
+                    out = mk.get_attr(v, num)
+                judge_piece(v0, us, out, num, SITE, dict(base, call=i))
+            continue
+        # through the table: point location (no position draws), every rand() draw of a call is one constant u
+        names = ctx.rng.sample(sorted(set(TABLE_NAMES)), len(fam))
+        num = ctx.rng.choice([1, 2, 3, 5, 17])
+        if mode == "group_attrs":
+            conf = dict(num=num, date="2000-01-01", location=[5, 60])
+            for nm, v in zip(names, fam):
+                (conf.setdefault("attrs", {}) if ctx.rng.random() < 0.35 else conf)[nm] = v
+            configs = [conf if ctx.rng.random() < 0.5 else dict(groups=[conf])]
+            layout = [[(0, nm, v0) for nm, v0 in zip(names, fam0)]]
+        elif mode == "groups":
+            if ctx.rng.random() < 0.5: names = [names[0]] * len(fam)      # the same attribute (e.g. depth) in every group
+            gs = [dict(num=num, date="2000-01-%02d" % (i + 1), location=[5, 60], **{nm: v}) for i, (nm, v) in enumerate(zip(names, fam))]
+            configs = [dict(groups=gs) if ctx.rng.random() < 0.7 else gs]
+            layout = [[(i, nm, v0) for i, (nm, v0) in enumerate(zip(names, fam0))]]
+        else:
+            configs = [dict(num=num, date="2000-01-01", location=[5, 60], **{nm: v}) for nm, v in zip(names, fam)]
+            layout = [[(0, nm, v0)] for nm, v0 in zip(names, fam0)]
+        for target in range(len(fam0)):
+            cdf = list(fam0[target]["cdf"])
+            u = cdf[ctx.rng.randrange(1, len(cdf) - 1)] if ctx.rng.random() < 0.8 else ctx.rng.random()
+            for ci, (config, lay) in enumerate(zip(configs, layout)):
+                ctx.case(key=("piece_history", repr(fam0), mode, repr(names), num, target, u, ci), nontrivial=True)
+                with Recorder(ctx.sub_seed(), lambda kind, p, arr, _u=u: np.full(arr.shape, _u) if kind == "rand" else arr):
+                    table = mk.make_release(config)
+                for g, nm, v0 in lay:
+                    judge_piece(v0, [u] * num, list(table[nm])[g * num:(g + 1) * num], num, SITE_TABLE,
+                                dict(base, names=names, release=ci, group=g, attribute=nm, column=list(table[nm])))
 
 
 def run(ctx):
@@ -361,6 +752,8 @@ def run(ctx):
         want = [v0["knots"][k] for k in ks]
         ctx.oracle(len(out) == num and all(close(x, w, 1e-9, 1e-9) for x, w in zip(out, want)), "C04.piecewise.cdf_knots", SITE,
                    "particle i draws u_i = cdf[k_i] (k = %r): expected knots %r, got %r" % (ks, want, out), dict(spec=v0, num=num, draws=us.tolist(), out=out))
+    run_tables(ctx, mk)
+    run_piece_history(ctx, mk)
     if drv.available:
         rep = drv.run()
         results = []
